@@ -394,3 +394,43 @@ def _has_zero_leaf(t, depth=0):
     if t[0] == "loopphi":
         return False
     return False
+
+
+@rule("R-KEY-DECLARED", ["C16", "C14"])
+def r_key_declared(cx):
+    """every parameter key an operator reads at apply time is one its constructor declares (gamut), stores, or one of
+    the implicit keys: a key that nobody declares can never be set, so the option it stands for is silently ignored"""
+    owners = owners_of_functions(cx)
+    implicit_flags = {"inv", "omit_fwd", "omit_inv"}
+    n = 0
+    for fname in sorted(owners):
+        f = cx.f.fn(fname)
+        reads = []
+        for bb, t in f.calls():
+            c = f.callee(t) or ""
+            if c == K.PP + "::boolean":
+                key = K._const_key(f.arg_terms(bb)[1])
+                if key is not None:
+                    reads.append((bb, "boolean", key))
+        for r in K.find_reads(cx.f, f):
+            reads.append((r.bb, r.map, r.key))
+        for (bb, m, key) in reads:
+            for c in owners[fname]:
+                g, flags, optional = K.gamut_guarantees(c.gamut)
+                declared = {k for (_m, k) in g} | set(flags) | {k for (_m, k) in optional} | implicit_flags | set(
+                    K.implicit_reals(cx.f))
+                cf = cx.f.fn(c.path)
+                reg = cx.registry()
+                stored = set()
+                for gname in reg.reachable_from([c.path], follow_virtual=False):
+                    if gname.startswith(c.path.rsplit("::", 1)[0] + "::") or gname == "op::Op::plain":
+                        for (b2, m2, k2, _v) in K.inserts_in(cx.f, cx.f.fn(gname)):
+                            stored.add(k2)
+                n += 1
+                ok = key in declared or key in stored
+                cx.ob("R-KEY-DECLARED", "%s/%s/%s[%s]" % (c.names[0], fname, m, key), ok,
+                      "%s: key %r read in %s is declared or stored by the constructor" % (c.names[0], key, fname) if ok else
+                      "%s: %s reads %s[%r], but the gamut of %s declares no such key and the constructor never stores it: "
+                      "the option can never be set and is silently ignored (declared: %s)" % (
+                          c.names[0], fname, m, key, c.path, sorted(flags)[:8]), cx.where(f.term(bb)["span"]))
+    cx.count("R-KEY-DECLARED", "reads", n)
